@@ -61,9 +61,11 @@ def sample_stub(pixels, points_to_sample, mode='constant', order=1, cval=0.0):
         for a in range(nd):
             x = pts[k, a]
             if order == 0 and isinstance(x, SReal):
-                x = srint(x)
-                if isinstance(x, SReal):
-                    x = int(x)                     # concretise the pixel index (forks)
+                from .sreal import _int_valued
+                if _int_valued(x.t):
+                    x = int(x)                     # integer-valued index: concretise (forks over its values)
+                # otherwise the nearest-neighbour sample stays an
+                # uninterpreted function of the (unrounded) point
             cv = _concrete(x)
             coords.append((x, cv))
         if all(cv is not None for _, cv in coords) and (order == 0 or all(cv.denominator == 1 for _, cv in coords)):
@@ -87,10 +89,9 @@ _TAGS = {}
 
 
 def _img_tag(pixels):
-    root = pixels
-    while isinstance(root, np.ndarray) and root.base is not None and isinstance(root.base, np.ndarray):
-        root = root.base
-    k = id(root)
+    """identity of the sampled image = its content (so a copy of an image is
+    the same image function)."""
+    k = (pixels.shape,) + tuple(e.t.get_id() if isinstance(e, SReal) else e for e in np.asarray(pixels).flat)
     if k not in _TAGS:
         _TAGS[k] = len(_TAGS)
     return _TAGS[k]
